@@ -482,6 +482,7 @@ func cmdReclaim(fs *flag.FlagSet, args []string) {
 			s.fsckPoint(fmt.Sprintf("history %d directed remove-during-truncate %d", h, k))
 		}
 		s.shrinkerExitScenario(h, sz, base)
+		s.dirOverDirScenario(h, sz, base)
 		// directed: files of about the size one transaction can free (the estimate that decides between
 		// freeing at once and handing over to the background shrinker must cover everything a freed block dirties)
 		for k, nblk := range []uint64{240, 260, 300, 400, 480, 506, 507, 520} {
@@ -656,4 +657,39 @@ func (s *seqRun) shrinkerExitScenario(h int, sz uint64, base [2]uint64) {
 			h, sz, after[0], after[1], base[0], base[1]))
 	}
 	s.fsckPoint(fmt.Sprintf("history %d directed remove-while-the-shrinker-exits", h))
+}
+
+// dirOverDirScenario (round 15, C05o): directories that lose a sub-directory by RENAME, not by RMDIR — p/x renamed over the
+// empty directory p/y (p/y's inode and block are given back by the RENAME), then everything removed bottom-up.  Whatever
+// bookkeeping MKDIR / RMDIR keep about sub-directories, the directories removed at the end must give their inode and their
+// block back: free counts as before.
+func (s *seqRun) dirOverDirScenario(h int, sz uint64, base [2]uint64) {
+	if s.dead {
+		return
+	}
+	before := s.freeCounts()
+	p := s.mk("mkdir", s.root(), "dod")
+	if p == nil {
+		return
+	}
+	x := s.mk("mkdir", p, "x")
+	y := s.mk("mkdir", p, "y")
+	if x == nil || y == nil {
+		s.deleteTree(s.root())
+		return
+	}
+	s.mk("create", x, "f")
+	s.opRename(p, "x", p, "y") // over the existing empty directory
+	ok := s.lastStatus == nfstypes.NFS3_OK
+	s.opRemove("remove", x, "f") // (the directory that was /dod/x keeps its handle under its new name)
+	s.opRemove("rmdir", p, "y")
+	s.opRemove("rmdir", s.root(), "dod")
+	gone := s.lastStatus == nfstypes.NFS3_OK
+	after := s.freeCounts()
+	if ok && gone && after != before {
+		s.oracle("C05", "space-not-reclaimed", fmt.Sprintf("history %d (disk %d): MKDIR /dod, /dod/x, /dod/y; RENAME /dod/x over the empty directory /dod/y; everything removed again (RMDIR /dod answered OK): the allocators report %d free blocks / %d free inodes, before the scenario %d / %d: a removed directory kept its inode and its block",
+			h, sz, after[0], after[1], before[0], before[1]))
+	}
+	s.fsckPoint(fmt.Sprintf("history %d directed directory renamed over a directory", h))
+	s.deleteTree(s.root())
 }
